@@ -542,6 +542,8 @@ pub struct World {
 	/// set while a Tamper action delivers the head of a queue
 	pub tamper: Option<u8>,
 	pub tampers_done: u32,
+	/// batch-sweep checks already made: (node, number of outputs, first outpoint)
+	pub batch_sweep_checked: BTreeSet<(usize, usize, bitcoin::OutPoint)>,
 	/// C08: nodes currently cut off; nodes that were ever cut off or gone; last HTLC views
 	pub partitioned: BTreeSet<usize>,
 	pub ever_unresponsive: BTreeSet<usize>,
@@ -713,6 +715,7 @@ impl World {
 			cheat: None,
 			tamper: None,
 			tampers_done: 0,
+			batch_sweep_checked: BTreeSet::new(),
 			partitioned: BTreeSet::new(),
 			ever_unresponsive: BTreeSet::new(),
 			htlc_views: BTreeMap::new(),
